@@ -266,7 +266,7 @@ func c04Check(c c04Case, m *meta.Module, t *model.Tree, what string, onlyCfg str
 	// (b) JSON round trip under every writer configuration
 	compactSyms := map[string]bool{}
 	jreport := func(cfg, sym, msg string) {
-		if cfg == "compact" || onlyCfg != "" {
+		if cfg == "compact" {
 			compactSyms[sym] = true
 			report("json", sym, msg, cfg)
 		} else if !compactSyms[sym] {
